@@ -399,6 +399,10 @@ class C06(Check):
         for fn, item in vlib.corpus_items("C06"):
             specs.append(("corpus/" + fn, item["spec"]))
         specs.append(("designed/volcurve-clamp", K.volcurve_clamp_spec()))
+        specs.append(("designed/overflow-flag", K.overflow_spec(True)))
+        for attr in ("min_level", "max_level", "elevation"):
+            specs.append(("designed/rerun-same-simulator-%s" % attr, K.rerun_edit_spec(attr, False)))
+        specs.append(("designed/rerun-fresh-simulator-min_level", K.rerun_edit_spec("min_level", True)))
         specs.append(("designed/tank-leak-DD", K.tank_leak_spec("DD")))
         specs.append(("designed/tank-leak-PDD", K.tank_leak_spec("PDD")))
         specs.append(("designed/valve-user-open", K.valve_user_open_spec()))
@@ -417,6 +421,8 @@ class C06(Check):
                 force["tank_kind"] = ctx.rng.choice(["curve-wide", "curve-tight"])
             if i % 3 == 2:
                 force["leaks"] = True
+            if i % 4 == 0:
+                force["rerun"] = True
             specs.append(("seed%d/net%d" % (ctx.seed, i), K.random_network(ctx.rng, ctx.quick, force)))
         for k, (label, spec) in enumerate(specs):
             tr = self._network(ctx, B, spec, label, failures, broken, grid_check=(k % 3 == 0))
